@@ -24,12 +24,40 @@ fn h(a: &Ann) -> u64 {
     kit::hash_bytes(&zksync_protobuf::encode(&**a))
 }
 
+/// The address book under test: the bare `ValidatorAddrsWatch`, or the one inside a whole
+/// `network::Network` node, fed through the node's real `push_validator_addrs` RPC handler.
+enum Book {
+    Watch(Arc<ValidatorAddrsWatch>),
+    Node(Arc<zksync_consensus_network::Network>, Arc<ctx::Ctx>),
+}
+
+impl Book {
+    async fn update(&self, schedule: &validator::Schedule, data: &[Ann]) -> anyhow::Result<()> {
+        match self {
+            Book::Watch(w) => w.update(schedule, data).await,
+            Book::Node(n, ctx) => zksync_consensus_network::verif::push_validator_addrs(n, ctx, data).await,
+        }
+    }
+    fn current(&self) -> Vec<Ann> {
+        match self {
+            Book::Watch(w) => w.current(),
+            Book::Node(n, _) => zksync_consensus_network::verif::view(n).validator_addrs,
+        }
+    }
+}
+
 pub async fn run(seed: u64, sched: Rc<Sched>, keep_log: bool) -> (CaseResult, Vec<String>) {
-    let mut rng = kit::stream(seed, "addrs");
+    run_with(seed, sched, keep_log, false).await
+}
+
+/// `in_situ`: the books live inside real nodes, requests are large (up to 100 entries, most of
+/// them padding by non-members) and go through the RPC handler.
+pub async fn run_with(seed: u64, sched: Rc<Sched>, keep_log: bool, in_situ: bool) -> (CaseResult, Vec<String>) {
+    let mut rng = kit::stream(seed, if in_situ { "addrs-node" } else { "addrs" });
     let hist: SharedHist<Ev> = new_hist(keep_log);
     let clock = ctx::ManualClock::new();
     let nval = rng.gen_range(1..=5usize);
-    let nout = rng.gen_range(0..=2usize);
+    let nout = if in_situ { rng.gen_range(40..=110usize) } else { rng.gen_range(0..=2usize) };
     let keys: Vec<validator::SecretKey> = (0..nval + nout).map(|_| rng.gen()).collect();
     let schedule = validator::Schedule::new(
         keys[..nval].iter().map(|k| validator::ValidatorInfo { key: k.public(), weight: 1, leader: true }),
@@ -39,11 +67,12 @@ pub async fn run(seed: u64, sched: Rc<Sched>, keep_log: bool) -> (CaseResult, Ve
     let base = clock.now_utc();
     // Announcements: few distinct (version, timestamp) pairs so that ties and reversals abound.
     let mut anns: Vec<(Ann, bool)> = vec![]; // (announcement, validly signed)
-    let nann = rng.gen_range(4..30usize);
+    let nann = if in_situ { rng.gen_range(150..400usize) } else { rng.gen_range(4..30usize) };
     let mut equal_vt_conflict = false;
     let mut seen_vt: BTreeMap<(usize, u64, i64), std::net::SocketAddr> = BTreeMap::new();
     for _ in 0..nann {
-        let k = rng.gen_range(0..keys.len());
+        // In situ most entries are padding by non-members.
+        let k = if in_situ && rng.gen_range(0..100) < 65 { rng.gen_range(nval..keys.len()) } else { rng.gen_range(0..keys.len()) };
         let version = match rng.gen_range(0..100) { 0..=3 => u64::MAX, 4..=7 => u64::MAX - 1, _ => rng.gen_range(0..4u64) };
         let dt = match rng.gen_range(0..100) { 0..=4 => 1_000_000_000i64, _ => rng.gen_range(0..3i64) };
         let addr: std::net::SocketAddr = format!("10.0.{}.{}:{}", k, rng.gen_range(1..5), 3000 + rng.gen_range(0..3)).parse().unwrap();
@@ -56,7 +85,7 @@ pub async fn run(seed: u64, sched: Rc<Sched>, keep_log: bool) -> (CaseResult, Ve
             seen_vt.insert((k, version, dt), addr);
         }
         let mut s = keys[k].sign_msg(msg.clone());
-        let valid = rng.gen_range(0..100) >= 12;
+        let valid = rng.gen_range(0..100) >= if in_situ { 22 } else { 12 };
         if !valid {
             match if keys.len() > 1 { rng.gen_range(0..2) } else { 1 } {
                 // forged: signature of another key
@@ -70,8 +99,42 @@ pub async fn run(seed: u64, sched: Rc<Sched>, keep_log: bool) -> (CaseResult, Ve
     // Batches.
     let nbatch = rng.gen_range(2..14usize);
     let mut batches: Vec<Vec<usize>> = vec![];
-    for _ in 0..nbatch {
-        let len = rng.gen_range(1..6usize);
+    for bi in 0..nbatch {
+        if in_situ && rng.gen_range(0..100) < 30 {
+            // "A forged entry positioned after valid ones": a fresh, valid, newest announcement of
+            // one member first, a long run of padding by non-members, then a forged newest
+            // announcement of a member.
+            let mk = |rng: &mut rand_chacha::ChaCha8Rng, valid: bool, version: u64| -> (Ann, bool) {
+                let k = rng.gen_range(0..nval);
+                let msg = validator::NetAddress { addr: format!("10.9.{}.{}:4000", k, version % 250).parse().unwrap(), version, timestamp: base };
+                let mut s = keys[k].sign_msg(msg.clone());
+                if !valid {
+                    s.sig = keys[nval + rng.gen_range(0..nout)].sign_msg(msg).sig;
+                }
+                (Arc::new(s), valid)
+            };
+            let first = mk(&mut rng, true, 100 + 2 * bi as u64);
+            let last = mk(&mut rng, false, 101 + 2 * bi as u64);
+            let same_key = first.0.key == last.0.key;
+            anns.push(first);
+            let mut b = vec![anns.len() - 1];
+            let mut seen = vec![];
+            for _ in 0..rng.gen_range(31..80) {
+                let i = rng.gen_range(0..anns.len());
+                let k = &anns[i].0.key;
+                if !schedule.contains(k) && !seen.contains(k) {
+                    seen.push(k.clone());
+                    b.push(i);
+                }
+            }
+            if !same_key {
+                anns.push(last);
+                b.push(anns.len() - 1);
+            }
+            batches.push(b);
+            continue;
+        }
+        let len = if in_situ { [1usize, 5, 31, 32, 33, 40, 64, 65, 100][rng.gen_range(0..9)] } else { rng.gen_range(1..6usize) };
         let mut b: Vec<usize> = (0..len).map(|_| rng.gen_range(0..anns.len())).collect();
         if rng.gen_range(0..100) < 70 {
             // usually no duplicate keys inside a batch
@@ -83,8 +146,62 @@ pub async fn run(seed: u64, sched: Rc<Sched>, keep_log: bool) -> (CaseResult, Ve
         }
         batches.push(b);
     }
-    let nbooks = rng.gen_range(2..=3usize);
-    let books: Vec<Arc<ValidatorAddrsWatch>> = (0..nbooks).map(|_| Arc::new(ValidatorAddrsWatch::default())).collect();
+    let nbooks = if in_situ { rng.gen_range(1..=2usize) } else { rng.gen_range(2..=3usize) };
+    let mut node_handles = vec![];
+    let books: Vec<Arc<Book>> = if !in_situ {
+        (0..nbooks).map(|_| Arc::new(Book::Watch(Arc::new(ValidatorAddrsWatch::default())))).collect()
+    } else {
+        // Whole nodes (no connections between them: the harness is the gossip).
+        use crate::bft::{engine::NodeStore, hub::{Committee, Hub}};
+        let net = crate::kit::simnet::Net::new(seed);
+        zksync_concurrency::verif::net_shim::install_net(Some(net.handle()));
+        let genesis = validator::GenesisRaw {
+            chain_id: validator::ChainId(5),
+            fork_number: validator::ForkNumber(0),
+            protocol_version: validator::ProtocolVersion::CURRENT,
+            first_block: validator::BlockNumber(0),
+            validators_schedule: Some(schedule.clone()),
+        }
+        .with_hash();
+        let committee = Committee {
+            pubkeys: keys[..nval].iter().map(|k| k.public()).collect(),
+            keys: keys[..nval].to_vec(),
+            weights: vec![1; nval],
+            byz: vec![false; nval],
+            genesis: genesis.clone(),
+            schedule: schedule.clone(),
+        };
+        let mut out = vec![];
+        for b in 0..nbooks {
+            let hub = Arc::new(Hub::new(committee.clone(), kit::stream(seed, "pad"), 0, false));
+            let store = Arc::new(std::sync::Mutex::new(NodeStore::new(validator::BlockNumber(0), true)));
+            let spec = crate::node::sync::NodeSpec {
+                name: if b == 0 { "book0" } else { "book1" },
+                tag: 1 + b as u64,
+                idx: 0,
+                key: rng.gen(),
+                port: 3100 + b as u16,
+                static_inbound: Default::default(),
+                static_outbound: Default::default(),
+                dynamic_inbound_limit: 0,
+                max_block_queue_size: 2,
+            };
+            let (slot, kill, h) = crate::node::sync::start_node(spec, genesis.clone(), store, &hub, &clock, &sched, &net);
+            // Let the node come up.
+            let mut d0 = Director::new(seed ^ b as u64, sched.clone(), clock.clone());
+            d0.tick_pct = 0;
+            let s2 = slot.clone();
+            let _ = d0.drive(|| s2.lock().unwrap().is_some(), |_| {}).await;
+            let Some(n) = slot.lock().unwrap().clone() else {
+                hist.note("node did not start".into());
+                continue;
+            };
+            out.push(Arc::new(Book::Node(n, Arc::new(ctx::test_root(&clock)))));
+            node_handles.push((kill, h));
+        }
+        out
+    };
+    let nbooks = books.len();
     let anns = Arc::new(anns);
     let batches = Arc::new(batches);
     let schedule = Arc::new(schedule);
@@ -117,6 +234,20 @@ pub async fn run(seed: u64, sched: Rc<Sched>, keep_log: bool) -> (CaseResult, Ve
     let mut d = Director::new(seed, sched.clone(), clock.clone());
     d.tick_pct = 0;
     let _ = d.drive(|| handles.iter().all(|h| h.is_finished()), |_| {}).await;
+    // Snapshot of the books before the nodes (if any) are shut down.
+    let currents: Vec<Vec<Ann>> = books.iter().map(|b| b.current()).collect();
+    drop(books);
+    let mut hs = vec![];
+    for (k, h) in node_handles {
+        let _ = k.send(());
+        hs.push(h);
+    }
+    if !hs.is_empty() {
+        d.tick_pct = 5;
+        d.tick_sizes = vec![10_000_000_000];
+        let _ = d.drive(|| hs.iter().all(|h| h.is_finished()), |_| {}).await;
+        zksync_concurrency::verif::net_shim::install_net(None);
+    }
     d.drain().await;
     // Reference model, applied in the linearisation order of each book.
     let events = hist.lock().unwrap().events.clone();
@@ -170,7 +301,7 @@ pub async fn run(seed: u64, sched: Rc<Sched>, keep_log: bool) -> (CaseResult, Ve
             }
         }
         // Final comparison + intrinsic invariants of the real book.
-        let real: BTreeMap<validator::PublicKey, Ann> = books[book].current().into_iter().map(|a| (a.key.clone(), a)).collect();
+        let real: BTreeMap<validator::PublicKey, Ann> = currents[book].iter().cloned().map(|a| (a.key.clone(), a)).collect();
         for (k, a) in &real {
             if !schedule.contains(k) {
                 hist.violation("C18", "outsider_in_address_book", format!("book {book} holds an announcement of a key outside the committee"));
@@ -206,6 +337,9 @@ pub async fn run(seed: u64, sched: Rc<Sched>, keep_log: bool) -> (CaseResult, Ve
     }
     let states = vec![kit::mix(nval as u64, kit::mix(rejected.min(9) as u64, replaced.min(9) as u64))];
     let he = if sched.live() != 0 { Some("tasks alive".to_string()) } else { None };
-    finish(seed, "addrs", &sched, &hist, d.sim_ns, replaced > 0 || rejected > 0, states,
+    if in_situ {
+        hist.probe("through_the_rpc_handler_of_a_node");
+    }
+    finish(seed, if in_situ { "addrs-node" } else { "addrs" }, &sched, &hist, d.sim_ns, replaced > 0 || rejected > 0, states,
         json!({"validators": nval, "outsiders": nout, "announcements": nann, "batches": nbatch, "books": nbooks, "rejected_batches": rejected, "replacements": replaced}), he)
 }
